@@ -20,7 +20,7 @@ import re
 from sa import api, asm, bounds, pairing, sym
 from sa.facts import Program, walk
 from sa.symexec import Hooks, run_function, flat
-from sa.sym import I
+from sa.sym import I, ZERO
 
 
 def lib_functions(v):
@@ -97,6 +97,7 @@ def run(chk):
                                 variant=vn)
         chk.set_count("R1.local_arrays", narr)
         check_initialised(chk, v, fns)
+        check_lifecycle_init(chk, v, fns)
         check_generated_rows(chk, v)
         chk.set_count("R9.sized_object_uses", nsized)
         chk.set_count("R10.memcpy_ranges_over_field_arrays", nmem)
@@ -714,6 +715,59 @@ def first_iteration_subscripts(chk, v, f, roots, fext, earr, R, rec_of):
 
 
 # ------------------------------------------------------------------------------ R7: written before read
+def check_lifecycle_init(chk, v, fns):
+    """R7 (lifecycle helpers): a function named init_X / clone_X / copy_X that builds an X in storage it is given WITHOUT running X's
+    constructor there (field-by-field, or with a block copy of part of another X) must give every field of X a value: the fields
+    assigned one by one and those inside the bytes a memcpy of constant length covers are collected; a field outside both keeps
+    whatever the storage held."""
+    from sa.symexec import flat
+    import re as _re
+    n = 0
+    for f in fns:
+        m_ = _re.match(r"^(init|clone|copy)_(\w+?)(_array)?$", f.name or "")
+        if not m_ or m_.group(3) or m_.group(2) not in v.records or not f.params:
+            continue
+        rec = v.records[m_.group(2)]
+        if m_.group(2) not in (f.params[0]["t"] or ""):
+            continue
+        obj = sym.sym(f.params[0]["n"])
+        eff, st, ex = run_function(v, f, hooks=Hooks())
+        covered_to = 0
+        fields = set()
+        constructed = False
+        for x in flat(eff):
+            if x["e"] == "call" and (x.get("kind") == "construct" or x["name"].endswith("::" + m_.group(2))):
+                this = x.get("this")
+                if this is not None and sym.root_of(this) == obj:
+                    constructed = True
+            if x["e"] == "call" and x["name"] in ("memcpy", "std::memcpy", "memmove", "std::memmove") and len(x.get("args") or []) == 3:
+                d_ = x["args"][0]
+                while isinstance(d_, tuple) and d_[0] == "cast":
+                    d_ = d_[2]
+                nb = sym.const_value(x["args"][2]) if isinstance(x["args"][2], tuple) else None
+                if d_ == obj and nb is not None:
+                    covered_to = max(covered_to, nb)
+                elif d_ == obj:
+                    constructed = True          # a length that is not a constant: not decided here
+            if x["e"] == "store":
+                lv = x["lv"]
+                while isinstance(lv, tuple) and lv[0] in ("idx", "fld"):
+                    if lv[0] == "fld" and lv[1] in (sym.idx(obj, ZERO), obj):
+                        fields.add(lv[2])
+                        break
+                    lv = lv[1]
+        if constructed or (not covered_to and not fields):
+            continue
+        missing = [fd_ for fd_ in rec.get("fields", []) if fd_["n"] not in fields and not (fd_["offset"] + fd_["size"] <= covered_to)]
+        n += 1
+        key = "%s gives every field of the %s it builds a value" % (f.name, m_.group(2))
+        chk.ob("R7", key, "refuted" if missing else "proved", where=f.where, variant=v.name,
+               detail=("field%s %s (offset %d) %s neither assigned nor inside the %d bytes copied from the source object: the new object keeps what the storage held there" % (
+                   "s" if len(missing) > 1 else "", ", ".join(fd_["n"] for fd_ in missing), missing[0]["offset"], "are" if len(missing) > 1 else "is", covered_to))
+               if missing else "%d field(s): %d assigned, bytes [0, %d) copied" % (len(rec.get("fields", [])), len(fields), covered_to))
+    chk.vcount(v.name, "R7.lifecycle_helpers", n)
+
+
 def check_initialised(chk, v, fns):
     """objects and arrays created in a library function with uninitialised contents are written before they are read
     (sa/initflow.py: first-access summaries of callees, assembly functions included)"""
